@@ -1,20 +1,18 @@
 import ScriggoV.Spec.GoConst
 import ScriggoV.Gen.ConstInt
-/-! # Integer constant expressions: the exact evaluator and Scriggo's evaluation strategy (C02)
+/-! # Constant expressions: syntax, rejections, and the integer part of Scriggo's strategy (C02)
 
-`Expr` — constant-expression trees over untyped integer literals, conversions to every integer
-kind, unary `+ - ^`, the nine binary arithmetic/bitwise operators, the six comparisons and the
-two shifts.
+`Expr` — constant-expression trees over untyped integer, rune and floating-point literals,
+conversions to every integer kind, unary `+ - ^`, the nine binary arithmetic/bitwise operators, the
+six comparisons and the two shifts.
 
-* `evalExact rule` — the Go specification (`Spec/GoConst.lean`): exact arithmetic on `Int`,
-  representability as range membership, the implementation limits of go/types; `rule` is the
-  rule for a constant shift count (`goRule` for the reference).
-* `evalScriggo` — what the type checker (`checker_expressions.go`) and `constant.go` do: a
-  constant is an `int64Const` (`SC.small`) or an `intConst` (`SC.big`); operations on two small
-  constants run the generated int64 fast path `Gen.ConstInt.fastBinary` / `fastUnary` and fall
-  back to math/big when it says so; `representedBy` is the generated `repFast` / `repBig…`; the
-  shift guard uses the generated limits.  math/big itself (`Add … AndNot`, `Lsh`, `Rsh`, `BitLen`)
-  is *trusted*: its methods are interpreted by their documented exact meaning.
+This file holds what the integer theorems (`Props/C02.lean`) are about: a constant is an
+`int64Const` (`SC.small`) or an `intConst` (`SC.big`); operations on two small constants run the
+generated int64 fast path `Gen.ConstInt.fastBinary` / `fastUnary` and fall back to math/big when it
+says so; `representedBy` is the generated `repFast` / `repBig…`; the shift guard uses the generated
+limits.  math/big itself (`Add … AndNot`, `Lsh`, `Rsh`, `BitLen`) is *trusted*: its methods are
+interpreted by their documented exact meaning.  The evaluators (exact and Scriggo's strategy, over
+all numeric constants) are in `Model/ConstEvalQ.lean`.
 
 Core Lean only. -/
 namespace ScriggoV.ConstEval
@@ -27,6 +25,8 @@ inductive UnOp where
 
 inductive Expr where
   | lit (n : Nat)
+  | rlit (n : Nat)                  -- rune literal
+  | flit (num : Int) (den : Nat)    -- floating-point literal with the exact value num/den
   | conv (k : Kind) (e : Expr)
   | un (op : UnOp) (e : Expr)
   | bin (op : Arith) (a b : Expr)
@@ -46,96 +46,19 @@ inductive Reject where
   | shiftCountUint    -- shift count does not fit the count type
   | mismatched        -- operands of different types
   | notInteger        -- a boolean where an integer is needed
+  | truncated         -- a non-integral constant where an integer is needed ("truncated to integer")
+  | invalidOp         -- operator not defined on the operands (floating-point `%`, `&`, `^` …)
+  | inexact           -- not a rejection: the model leaves its exact fragment (a 512-bit big.Float would round)
   | fault             -- the implementation would panic (index out of range, division by zero in Go code)
   deriving DecidableEq, Repr
 
-/-- value of a constant expression: an integer constant (untyped when `ty = none`) or an untyped boolean -/
-inductive Val where
-  | int (ty : Option Kind) (v : Int)
-  | bool (b : Bool)
-  deriving DecidableEq, Repr
-
 abbrev R := Except Reject
-
-/-! ## the exact evaluator (specification) -/
-
-/-- a result of type `ty` must be representable (typed) or within 512 bits (untyped) -/
-def checkTy (ty : Option Kind) (v : Int) : R Val :=
-  match ty with
-  | none => if fitsUntyped v then .ok (.int none v) else .error .untypedOverflow
-  | some k => if representable k v then .ok (.int (some k) v) else .error .overflow
-
-/-- operand types of a binary operation: an untyped operand is converted to the other's type -/
-def unify (ta tb : Option Kind) (x y : Int) : R (Option Kind) :=
-  match ta, tb with
-  | none, none => .ok none
-  | some k, none => if representable k y then .ok (some k) else .error .overflow
-  | none, some k => if representable k x then .ok (some k) else .error .overflow
-  | some k, some k' => if k = k' then .ok (some k) else .error .mismatched
 
 /-- rule for a constant shift count: `isLeft`, count -/
 abbrev ShiftRule := Bool → Int → R Unit
 
 def goRule : ShiftRule := fun _ c =>
   if c < 0 then .error .negShift else if goShiftCountOk c then .ok () else .error .shiftTooLarge
-
-def exactConv (k : Kind) (v : Val) : R Val :=
-  match v with
-  | .int _ x => if representable k x then .ok (.int (some k) x) else .error .overflow
-  | .bool _ => .error .notInteger
-
-def exactUn (op : UnOp) (v : Val) : R Val :=
-  match v with
-  | .int ty x =>
-    match op with
-    | .plus => .ok (.int ty x)
-    | .neg => checkTy ty (-x)
-    | .compl => checkTy ty (complement ty x)
-  | .bool _ => .error .notInteger
-
-def exactBin (op : Arith) (va vb : Val) : R Val :=
-  match va, vb with
-  | .int ta x, .int tb y => do
-    let ty ← unify ta tb x y
-    match arith op x y with
-    | none => .error .divZero
-    | some r => checkTy ty r
-  | _, _ => .error .notInteger
-
-def exactCmp (op : Cmp) (va vb : Val) : R Val :=
-  match va, vb with
-  | .int ta x, .int tb y => do
-    let _ ← unify ta tb x y
-    .ok (.bool (cmp op x y))
-  | _, _ => .error .notInteger
-
-def exactShift (rule : ShiftRule) (isLeft : Bool) (va vb : Val) : R Val :=
-  match va, vb with
-  | .int ta x, .int _ c => do
-    rule isLeft c
-    checkTy ta (if isLeft then shiftLeft x c.toNat else shiftRight x c.toNat)
-  | _, _ => .error .notInteger
-
-def evalExact (rule : ShiftRule) : Expr → R Val
-  | .lit n => if fitsUntyped n then .ok (.int none n) else .error .tooLarge
-  | .conv k e => do exactConv k (← evalExact rule e)
-  | .un op e => do exactUn op (← evalExact rule e)
-  | .bin op a b => do
-    let va ← evalExact rule a
-    let vb ← evalExact rule b
-    exactBin op va vb
-  | .cmp op a b => do
-    let va ← evalExact rule a
-    let vb ← evalExact rule b
-    exactCmp op va vb
-  | .shl a b => do
-    let va ← evalExact rule a
-    let vb ← evalExact rule b
-    exactShift rule true va vb
-  | .shr a b => do
-    let va ← evalExact rule a
-    let vb ← evalExact rule b
-    exactShift rule false va vb
 
 /-! ## Scriggo's strategy -/
 
@@ -148,16 +71,6 @@ inductive SC where
 def SC.val : SC → Int
   | .small v => v.toInt
   | .big v => v
-
-inductive SVal where
-  | int (ty : Option Kind) (c : SC)
-  | bool (b : Bool)
-  deriving DecidableEq, Repr
-
-/-- the value a Scriggo constant denotes -/
-def SVal.abs : SVal → Val
-  | .int ty c => .int ty c.val
-  | .bool b => .bool b
 
 /-- `reflect.Kind` of an integer kind, with the generated numbering -/
 def kindCode : Kind → Nat
@@ -295,81 +208,6 @@ def sShift (isLeft : Bool) (a c : SC) : R SC := do
       | _ => .error .fault
     | .big v => .ok (.big (shiftRight v sc))   -- big.Int.Rsh
 
-/-- after a typed operation the checker calls `representedBy(type)` and keeps its result -/
-def sTyped (ty : Option Kind) (c : SC) : R SVal :=
-  match ty with
-  | none => .ok (.int none c)
-  | some k => do .ok (.int (some k) (← sRep (kindCode k) c))
-
-def sConvOperands (ta tb : Option Kind) (a b : SC) : R (Option Kind × SC × SC) :=
-  match ta, tb with
-  | none, none => .ok (none, a, b)
-  | some k, none => do .ok (some k, a, ← sRep (kindCode k) b)
-  | none, some k => do .ok (some k, ← sRep (kindCode k) a, b)
-  | some k, some k' => if k = k' then .ok (some k, a, b) else .error .mismatched
-
-def sConv (k : Kind) (v : SVal) : R SVal :=
-  match v with
-  | .int _ c => do .ok (.int (some k) (← sRep (kindCode k) c))
-  | .bool _ => .error .notInteger
-
-def sUn (op : UnOp) (v : SVal) : R SVal :=
-  match v with
-  | .int ty c =>
-    match op with
-    | .plus => .ok (.int ty c)
-    | .neg => do
-      let r ← sUnary .neg kInt c
-      match ty with
-      | none => .ok (.int none r)
-      | some k => do
-        let _ ← sRep (kindCode k) r       -- checked, result not kept
-        .ok (.int (some k) r)
-    | .compl => do
-      let code := match ty with | none => kInt | some k => kindCode k
-      .ok (.int ty (← sUnary .compl code c))
-  | .bool _ => .error .notInteger
-
-def sBin (op : Arith) (va vb : SVal) : R SVal :=
-  match va, vb with
-  | .int ta a, .int tb b => do
-    let (ty, a', b') ← sConvOperands ta tb a b
-    sTyped ty (← sArith op a' b')
-  | _, _ => .error .notInteger
-
-def sCmpV (op : Cmp) (va vb : SVal) : R SVal :=
-  match va, vb with
-  | .int ta a, .int tb b => do
-    let (_, a', b') ← sConvOperands ta tb a b
-    .ok (.bool (← sCmp op a' b'))
-  | _, _ => .error .notInteger
-
-def sShiftV (isLeft : Bool) (va vb : SVal) : R SVal :=
-  match va, vb with
-  | .int ta a, .int _ c => do sTyped ta (← sShift isLeft a c)
-  | _, _ => .error .notInteger
-
-def evalScriggo : Expr → R SVal
-  | .lit n => do .ok (.int none (← sLit n))
-  | .conv k e => do sConv k (← evalScriggo e)
-  | .un op e => do sUn op (← evalScriggo e)
-  | .bin op a b => do
-    let va ← evalScriggo a
-    let vb ← evalScriggo b
-    sBin op va vb
-  | .cmp op a b => do
-    let va ← evalScriggo a
-    let vb ← evalScriggo b
-    sCmpV op va vb
-  | .shl a b => do
-    let va ← evalScriggo a
-    let vb ← evalScriggo b
-    sShiftV true va vb
-  | .shr a b => do
-    let va ← evalScriggo a
-    let vb ← evalScriggo b
-    sShiftV false va vb
-
 /-! ## protocol: prefix notation -/
 
 def kindName : Kind → String
@@ -392,7 +230,7 @@ def parseUn : String → Option UnOp
   | "plus" => some .plus | "neg" => some .neg | "compl" => some .compl
   | _ => none
 
-/-- `L n` | `C kind e` | `U op e` | `B op a b` | `SHL a b` | `SHR a b`; fuel bounds the depth.
+/-- `L n` | `R n` (rune) | `F num den` (float literal) | `C kind e` | `U op e` | `B op a b` | `SHL a b` | `SHR a b`; fuel bounds the depth.
 A comparison `Q op a b` is accepted at the root only (`parseWhole`): comparisons of booleans are
 not modelled. -/
 def parseExpr : Nat → List String → Option (Expr × List String)
@@ -400,6 +238,10 @@ def parseExpr : Nat → List String → Option (Expr × List String)
   | fuel + 1, toks =>
     match toks with
     | "L" :: n :: rest => do pure (.lit (← n.toNat?), rest)
+    | "R" :: n :: rest => do pure (.rlit (← n.toNat?), rest)
+    | "F" :: n :: d :: rest => do
+      let d ← d.toNat?
+      if d == 0 then none else pure (.flit (← n.toInt?) d, rest)
     | "C" :: k :: rest => do
       let (e, rest) ← parseExpr fuel rest
       pure (.conv (← parseKind k) e, rest)
@@ -435,22 +277,8 @@ def Reject.name : Reject → String
   | .overflow => "overflow" | .untypedOverflow => "untyped-overflow" | .tooLarge => "too-large"
   | .divZero => "div-zero" | .negShift => "neg-shift" | .shiftTooLarge => "shift-too-large"
   | .shiftCountUint => "shift-count-uint" | .mismatched => "mismatched" | .notInteger => "not-integer"
+  | .truncated => "truncated" | .invalidOp => "invalid-op" | .inexact => "inexact"
   | .fault => "fault"
-
-def tyName : Option Kind → String
-  | none => "untyped"
-  | some k => kindName k
-
-def showVal : R Val → String
-  | .ok (.int ty v) => s!"ok int {tyName ty} {v}"
-  | .ok (.bool b) => s!"ok bool {b}"
-  | .error r => "err " ++ r.name
-
-def showSVal : R SVal → String
-  | .ok (.int ty (.small v)) => s!"ok int {tyName ty} {v.toInt} small"
-  | .ok (.int ty (.big v)) => s!"ok int {tyName ty} {v} big"
-  | .ok (.bool b) => s!"ok bool {b}"
-  | .error r => "err " ++ r.name
 
 def showFast : FastResult → String
   | .value r => s!"value {r.toInt}"
